@@ -250,6 +250,33 @@ def norm_blanks(obj):
 
 
 # ------------------------------------------------------------------ the check
+def share_equal(doc):
+    """a deep copy of the document in which equal dicts / lists (with at least one member) are ONE object -> (copy, how many
+    places now point to an object met before)"""
+    memo, count = {}, [0]
+
+    def walk(x):
+        if isinstance(x, dict):
+            y = {k: walk(v) for k, v in x.items()}
+        elif isinstance(x, list):
+            y = [walk(v) for v in x]
+        else:
+            return x
+        if not y:
+            return y
+        try:
+            key = json.dumps(y, sort_keys=False)
+        except (TypeError, ValueError):
+            return y
+        if key in memo:
+            count[0] += 1
+            return memo[key]
+        memo[key] = y
+        return y
+
+    return walk(doc), count[0]
+
+
 class C19(core.PropBase):
     id = "C19"
     component = "accept"
@@ -291,6 +318,24 @@ class C19(core.PropBase):
             vals = {k: v for k, v in vals.items() if isinstance(k, str) and isinstance(v, str)}
             yield {"kind": kind, "doc": doc, "vals": vals, "ops": ops, "tseed": rng.randrange(1 << 30)}
 
+    def corpus_cases(self):
+        """rules about NAMES whose verdict must not depend on how the names sort: a dependency listed twice among three or four
+        (the repeated one first / in the middle / last in sorted order), two steps / environments of one name among several"""
+        out = []
+        rng = random.Random(19)
+        script = {"actions": {"onRun": {"command": "x"}}}
+        for names in (["a", "b", "c", "d"], ["d", "c", "b", "a"], ["Zeta", "alpha", "Mid", "beta"], ["s10", "s9", "s1", "s2"]):
+            for deps in ([0, 1, 1], [1, 0, 1], [1, 1, 0], [0, 0, 1], [2, 0, 1, 2], [0, 1, 2, 1], [0, 1, 2], [2, 2, 2]):
+                steps = [{"name": n, "script": script} for n in names]
+                steps[3]["dependencies"] = [{"dependsOn": names[i]} for i in deps]
+                doc = {"specificationVersion": "jobtemplate-2023-09", "name": "J", "steps": steps}
+                out.append({"kind": "job", "doc": doc, "vals": {}, "ops": [["corpus", "duplicate-dependency", "break"]] if len(set(deps)) < len(deps) else [], "tseed": rng.randrange(1 << 30)})
+            for dup in ((0, 1), (1, 3), (2, 3), (0, 3)):
+                steps = [{"name": n, "script": script} for n in names]
+                steps[dup[1]]["name"] = names[dup[0]]
+                out.append({"kind": "job", "doc": {"specificationVersion": "jobtemplate-2023-09", "name": "J", "steps": steps}, "vals": {}, "ops": [["corpus", "duplicate-step-name", "break"]], "tseed": rng.randrange(1 << 30)})
+        return out
+
     def rule(self, tier):
         return ("generated job / environment templates, two thirds valid, one third with 1-2 rule-typed mutations; each is compared with 6 variants: keys "
                 "reversed at every level, keys shuffled, YAML re-encoding, JSON re-encoding, re-blanked ('{{ }}', range and combination tokens; spaces only), "
@@ -313,6 +358,16 @@ class C19(core.PropBase):
             out.append(("yaml", y, vals, None))
         except DecodeValidationError:
             out.append(("yaml", None, vals, None))
+        # YAML that spells a part occurring twice ONCE, with an anchor and aliases (what yaml.safe_dump writes for an object met
+        # twice): equal sub-collections of the document are made one object first
+        try:
+            sh, n_shared = share_equal(doc)
+            if n_shared:
+                text = yaml.safe_dump(sh, allow_unicode=True, sort_keys=False)
+                if "&id" in text:
+                    out.append(("yaml-alias", document_string_to_object(document=text, document_type=DocumentType.YAML), vals, None))
+        except DecodeValidationError:
+            out.append(("yaml-alias", None, vals, None))
         try:
             j = document_string_to_object(document=json.dumps(doc), document_type=DocumentType.JSON)
             out.append(("json", j, vals, None))
